@@ -453,7 +453,9 @@ func (c *PathCtx) termLeaks(t *Term, secret *Term) bool {
 	twin, conj := c.secretTwin(secret)
 	t2 := termSubst(t, secret, twin, map[*Term]*Term{})
 	extra := append(conj, tNot(tEq(t, t2)))
+	c.deciding = true
 	r := c.checkSat(extra...)
+	c.deciding = false
 	switch r {
 	case "unsat":
 		return false
